@@ -31,6 +31,8 @@ func WorkerMain(hs map[string]Harness) {
 	shrinkList := flag.String("shrinklist", "", "replay file: write one candidate replay file per smaller scenario into -out")
 	normalise := flag.String("normalise", "", "replay file: re-execute it and write the exact decision logs of that execution to -outfile")
 	outFile := flag.String("outfile", "", "output file for -normalise")
+	progress := flag.String("progress", "", "file receiving the index of the run in flight")
+	dumprun := flag.Int64("dumprun", -1, "write the replay file of this run to -outfile without executing it")
 	nomin := flag.Bool("nominimise", false, "write unminimised replay files")
 	hashlog := flag.String("hashlog", "", "file for one line per run: run, trace hash, steps (determinism self-test)")
 	flag.Parse()
@@ -48,6 +50,10 @@ func WorkerMain(hs map[string]Harness) {
 			panic(p)
 		}
 	}()
+	if *dumprun >= 0 {
+		DumpRun(h, *seed, *dumprun, *tier, *outFile)
+		os.Exit(0)
+	}
 	if *shrinkList != "" || *normalise != "" {
 		name := *shrinkList + *normalise
 		b, err := os.ReadFile(name)
@@ -130,7 +136,7 @@ func WorkerMain(hs map[string]Harness) {
 			known[s] = true
 		}
 	}
-	res := RunWorker(h, WorkerOpts{Known: known, NoMinimise: *nomin, Seed: *seed, From: *from, To: *to, Tier: *tier, Budget: *budget, OutDir: *out, MaxViol: *maxv, HashFile: *hashes, RaceCheck: RaceCheck, HashLog: *hashlog})
+	res := RunWorker(h, WorkerOpts{Known: known, NoMinimise: *nomin, Progress: *progress, Seed: *seed, From: *from, To: *to, Tier: *tier, Budget: *budget, OutDir: *out, MaxViol: *maxv, HashFile: *hashes, RaceCheck: RaceCheck, HashLog: *hashlog})
 	jb, _ := json.Marshal(res)
 	fmt.Println(string(jb))
 	if res.Trouble != "" {
